@@ -558,6 +558,14 @@ fn run_single_program(
             let pid: i32 = child.into();
             if idx_cmd == 0 {
                 *pgid = pid;
+            }
+            // the group is set up from both sides: whoever runs first, the
+            // group of the first stage exists before a later stage joins it
+            // (the child calls setpgid() as well).
+            unsafe {
+                libc::setpgid(pid, *pgid);
+            }
+            if idx_cmd == 0 {
                 unsafe {
                     // we need to wait pgid of child set to itself,
                     // before give terminal to it (for macos).
